@@ -36,6 +36,7 @@ func runC18(x *Ctx) {
 	x.C.Rule("C18.R2", "ldRead: unexpected EOF inside a section is not a clean end", 4)
 	x.C.Rule("C18.R3", "CIDReader latches read errors; CID() reports them", 3)
 	x.C.Rule("C18.R4", "stream code shares no pooled state that outlives a call", 2)
+	carWriterAbort(x, "C18.R1")
 	x.poolDiscipline("C18.R4", "token/internal/envelope", "token", "token/delegation", "token/invocation")
 
 	S := ioFunctionSet(x)
